@@ -1,4 +1,5 @@
 import SqlgrepModel.Drivers.C16
+import SqlgrepModel.Drivers.Reader
 /- Line protocol driver: `<kind> <payload…>` per line in, one answer line out. -/
 open Sqlgrep
 
@@ -7,6 +8,9 @@ def dispatch (line : String) : String :=
   | some (.atom kind :: args) =>
     match kind with
     | "cmp3" => Drivers.C16.handle args
+    | "follow" => Drivers.Reader.handleFollow args
+    | "lines" => Drivers.Reader.handleLines true args
+    | "linecount" => Drivers.Reader.handleLines false args
     | _ => "unknown-kind"
   | _ => "bad-line"
 
